@@ -382,7 +382,7 @@ def _run_once(acc, side, actions, origin, tmp, forced):
 
 
 # ------------------------------------------------------------------ generation
-KINDS = ["eof", "reset", "oserror"]
+KINDS = ["eof", "reset", "oserror", "drain"]
 act = st.one_of(
     st.tuples(st.just("send"), st.sampled_from(["c", "s"])),
     st.tuples(st.just("send"), st.sampled_from(["c", "s"])),
